@@ -40,6 +40,10 @@ type traceSpec struct {
 	Steps  []string // scripted; nil = random
 	Seed   uint64
 	Length int
+	// Profile "minority": histories in which leaders write entries that reach nobody or a minority, are then passed over
+	// by the next election (they do not answer NewTerm) and come back later as late followers: logs whose heads sit in
+	// terms the next leader's log skipped (what truncateFollowerIfNeeded / Truncate / the election's max-head rule exist for)
+	Profile string
 }
 
 type traceResult struct {
@@ -364,10 +368,63 @@ type scheduler struct {
 	swaps   int
 	cuts    int
 	faulty  bool
+	warm    []string
+	curLead int
+	prevLead int
 }
 
 func newScheduler(c *cluster, r *hx.Rng, spec traceSpec) *scheduler {
-	return &scheduler{c: c, r: r, spec: spec, keys: []string{"a", "b", "c", "d"}, faulty: r.Intn(100) < 80}
+	s := &scheduler{c: c, r: r, spec: spec, keys: []string{"a", "b", "c", "d"}, faulty: r.Intn(100) < 80}
+	if spec.Profile == "minority" {
+		s.faulty = true
+		// warm-up: everybody holds one committed entry (no empty follower later: no snapshot transfers in the way)
+		s.warm = []string{"start", "ntall", "bl", "drain", "W", "drain"}
+	}
+	return s
+}
+
+// reweigh adapts the weights of the enabled steps to the trace's profile.
+func (s *scheduler) reweigh(ch []choice) []choice {
+	if s.spec.Profile != "minority" {
+		return ch
+	}
+	c := s.c
+	el := c.el
+	inflight := el != nil && el.phase == "bl-inflight"
+	for i := range ch {
+		st := ch[i].st
+		w := ch[i].w * 4
+		switch {
+		case strings.HasPrefix(st, "app:") || strings.HasPrefix(st, "ack:"):
+			if !inflight {
+				w = w * 3 / 10
+			}
+		case strings.HasPrefix(st, "w:"):
+			w = w * 3 / 2
+		case strings.HasPrefix(st, "fail:"):
+			w *= 4
+		case strings.HasPrefix(st, "crash:"):
+			if atoi(st[6:]) == s.curLead {
+				w *= 3
+			} else {
+				w /= 2
+			}
+		case strings.HasPrefix(st, "restart:"):
+			w *= 2
+		case strings.HasPrefix(st, "swap:"):
+			w = 0
+		case st == "crestart" || strings.HasPrefix(st, "cut:"):
+			w = w * 3 / 10
+		case strings.HasPrefix(st, "nt:") && atoi(st[3:]) == s.prevLead:
+			w = w * 3 / 10
+		case strings.HasPrefix(st, "ntfail:") && atoi(st[7:]) == s.prevLead && el != nil && el.phase == "quorum":
+			w *= 8
+		case strings.HasPrefix(st, "cu:") || st == "af":
+			w *= 2
+		}
+		ch[i].w = w
+	}
+	return ch
 }
 
 type choice struct {
@@ -383,10 +440,28 @@ func (s *scheduler) pick() string {
 			ch = append(ch, choice{st, w})
 		}
 	}
+	if len(s.warm) > 0 {
+		st := s.warm[0]
+		s.warm = s.warm[1:]
+		if st == "W" {
+			if c.el == nil || c.el.leader == 0 {
+				s.warm = nil
+				return s.pick()
+			}
+			st = fmt.Sprintf("w:%d:put:d", c.el.leader)
+		}
+		return st
+	}
 	if c.ctl == nil {
 		return "start"
 	}
 	el := c.el
+	if el != nil && el.leader != 0 && el.phase == "idle" {
+		s.curLead = el.leader
+	}
+	if el != nil && el.phase == "quorum" && el.total == 0 {
+		s.prevLead = s.curLead
+	}
 	elActive := false
 	if el != nil {
 		switch el.phase {
@@ -548,12 +623,16 @@ func (s *scheduler) pick() string {
 			add("heal:"+k, 2)
 		}
 	}
+	ch = s.reweigh(ch)
 	if len(ch) == 0 {
 		return ""
 	}
 	tot := 0
 	for _, x := range ch {
 		tot += x.w
+	}
+	if tot == 0 {
+		return ""
 	}
 	v := s.r.Intn(tot)
 	for _, x := range ch {
@@ -776,6 +855,9 @@ func main() {
 			}
 			if *mode == "c02" && r.Intn(100) < 30 {
 				sp.Length += 40
+			}
+			if sp.Nodes != 4 && r.Intn(100) < 45 {
+				sp.Profile = "minority"
 			}
 			specs = append(specs, sp)
 		}
